@@ -9,6 +9,7 @@ import Just.Lemmas.Percent
 import Just.Lemmas.PathText
 import Just.Lemmas.PathAbs
 import Just.Lemmas.Case
+import Just.Lemmas.Trim
 namespace Just.Props.C04
 open Just Just.Eval
 
@@ -677,6 +678,30 @@ theorem encode_uri_component_roundtrip (bs : List Nat) (h : ∀ b ∈ bs, b < 25
 open Just.Percent in
 /-- non-vacuity: `a b/é` (bytes 97 32 98 47 195 169) becomes `a%20b%2F%C3%A9` -/
 example : encode [97, 32, 98, 47, 195, 169] = "a%20b%2F%C3%A9".toList.map Char.toNat := by decide
+
+/-! ### `trim_start_matches` / `trim_end_matches`: "repeatedly remove prefixes / suffixes" -/
+
+/-- **`trim_start_matches(s, pat)`** (non-empty `pat`): the text is some number of copies of `pat`
+followed by the result, and the result does not start with `pat` — every leading copy is removed,
+nothing else is -/
+theorem trim_start_matches_spec (s pat : List Char) (hp : pat ≠ []) :
+    ∃ k, s = (List.replicate k pat).flatten ++ trimStartMatchesL pat (s.length + 1) s ∧
+      pat.isPrefixOf (trimStartMatchesL pat (s.length + 1) s) = false :=
+  trimStartMatchesL_spec pat hp (s.length + 1) s (by omega)
+
+/-- **`trim_end_matches(s, pat)`**: the result followed by some number of copies of `pat` is the text,
+and the result does not end with `pat` -/
+theorem trim_end_matches_spec (s pat : List Char) (hp : pat ≠ []) :
+    ∃ k, s = trimEndMatchesL pat (s.length + 1) s ++ (List.replicate k pat).flatten ∧
+      ¬ pat <:+ trimEndMatchesL pat (s.length + 1) s :=
+  trimEndMatchesL_spec pat hp (s.length + 1) s (by omega)
+
+/-- `trim_start` is idempotent and its result does not start with white space -/
+theorem trim_start_spec (l : List Char) :
+    trimStartL (trimStartL l) = trimStartL l ∧ ∀ c, (trimStartL l).head? = some c → isWs c = false :=
+  ⟨trimStartL_idem l, trimStartL_head l⟩
+
+example : trimStartMatchesL "ab".toList 8 "ababxab".toList = "xab".toList := by decide
 
 /-! ### `absolute_path()`: the working directory joined with the argument, cleaned -/
 section AbsolutePath
